@@ -6,7 +6,9 @@
 
 use crate::internal::error::{fail, Result};
 
-pub const BUFFER_SIZE_I128: usize = 64;
+/// Large enough for every `u8` precision when parsing (at most `precision` digits are copied) and
+/// for every `i8` scale when formatting (sign, 39 digits and up to 128 zeros)
+pub const BUFFER_SIZE_I128: usize = 256;
 
 /// Helper to parse decimals
 ///
